@@ -74,6 +74,35 @@ func (w *World) fnByRole(pkg *ssa.Package, name string) *ssa.Function {
 		if len(found) == 1 {
 			return found[0]
 		}
+		if len(found) == 0 {
+			// "convert between a method and a plain function": the function may have become a value-receiver method of a
+			// named type over its first parameter's type - receiver plus parameters then read like the old signature
+			for _, m := range pkg.Members {
+				tn, isT := m.(*ssa.Type)
+				if !isT {
+					continue
+				}
+				ms := w.Prog.MethodSets.MethodSet(tn.Type())
+				for i := 0; i < ms.Len(); i++ {
+					f := w.Prog.MethodValue(ms.At(i))
+					if f == nil || f.Blocks == nil || f.Synthetic != "" || f.Pkg != pkg || f.Signature.Recv() == nil {
+						continue
+					}
+					var ps []*types.Var
+					ps = append(ps, types.NewVar(0, nil, "", f.Signature.Recv().Type().Underlying()))
+					for j := 0; j < f.Signature.Params().Len(); j++ {
+						ps = append(ps, f.Signature.Params().At(j))
+					}
+					flat := types.NewSignatureType(nil, nil, nil, types.NewTuple(ps...), f.Signature.Results(), f.Signature.Variadic())
+					if sigKey(flat) == want {
+						found = append(found, f)
+					}
+				}
+			}
+			if len(found) == 1 {
+				return found[0]
+			}
+		}
 		return nil
 	}
 	if fam, ok := map[string]string{"getValuesFromRow": "Data", "getIdentifiesFromRow": "Identify"}[name]; ok {
